@@ -66,6 +66,8 @@ func tqFuncs(p *Prog) []*ssa.Function {
 func runC02(c *Ctx) {
 	p := c.P
 	hardLinksOnlyInLinkOrCopy(c, "R7")
+	failureSurvivesCleanup(c, "R2")
+	workerErrorPerJob(c, "R2")
 	// what the queue reports to its watchers as downloaded (fetch, pull, the filter process act on it) is decided
 	// in package tq: only results without error, each describing its own entry, and an OID counts as completed
 	// only after a successful transfer (C06.R8, shared)
